@@ -40,6 +40,7 @@ type Profile struct {
 }
 
 type Gen struct {
+	crowdedGroup bool // integrity scenarios: the next base image has one group of well over a hundred objects
 	r *RNG
 	p Profile
 	// distribution counters, reported in the evidence
